@@ -38,6 +38,10 @@ FieldCases == [kind : {"field"}, h : {1, 2, 6, 9, 11}, tas : {200}, f : Fields \
 \* (h = 1) is a heading like any other
 HeadingCases == [kind : {"uniform"}, h : 1..12, th : 1..12, given : BOOLEAN, tas : {200}, u : {15, -20}, v : {25, 0}]
 Eff(x) == IF "given" \in DOMAIN x THEN (IF x.given THEN x.h ELSE x.th) ELSE x.h
+\* a weather file is a coordinate-labelled array: the order in which it stores its
+\* pressure levels and latitudes (ERA5: both descending; "asc": both ascending)
+\* does not enter the result
+LayoutCases == [kind : {"field"}, h : {2, 9}, tas : {200}, f : {"lev", "mixed"}, u0 : {0}, v0 : {0}, hp : 0..2, hla : 0..2, hlo : 0..2, lay : {"asc"}]
 OutsideCases == [kind : {"outside"}, h : {2}, tas : {200}, side : {"north", "south", "east", "west", "above", "below"}]
 WindOf(x) == IF x.kind = "uniform" THEN <<I(x.u), I(x.v)>>
              ELSE <<Add(I(x.u0), Tri(LAMBDA p, la, lo : U(x.f, p, la, lo), x.hp, x.hla, x.hlo)),
@@ -48,7 +52,7 @@ Gs2(x) == LET d == Dirs[Eff(x)]  wv == WindOf(x)
           IN Add(Sq(e), Sq(n))
 Out(x) == IF x.kind = "outside" THEN [refused |-> TRUE, gs2 |-> I(0), w2 |-> I(0)]
           ELSE [refused |-> FALSE, gs2 |-> Gs2(x), w2 |-> Add(Sq(WindOf(x)[1]), Sq(WindOf(x)[2]))]
-WSpec == c \in (UniformCases \cup FieldCases \cup OutsideCases \cup HeadingCases) /\ o = <<>> /\ st = "pending"
+WSpec == c \in (UniformCases \cup FieldCases \cup OutsideCases \cup HeadingCases \cup LayoutCases) /\ o = <<>> /\ st = "pending"
          /\ [][st = "pending" /\ st' = "done" /\ o' = Out(c) /\ UNCHANGED c]_vars
 Done == st = "done"
 
@@ -67,6 +71,8 @@ Rot(h) == ((h + 2) % 12) + 1
 Rotation == (Done /\ c.kind = "uniform" /\ "th" \notin DOMAIN c) =>
    o.gs2 = Gs2([c EXCEPT !.h = Rot(c.h), !.u = c.v, !.v = -c.u])
 \* the track azimuth is irrelevant when a heading is given, and the only thing that counts when none is
+LayoutIrrelevant == (Done /\ "lay" \in DOMAIN c) =>
+   o.gs2 = Gs2([kind |-> "field", h |-> c.h, tas |-> c.tas, f |-> c.f, u0 |-> c.u0, v0 |-> c.v0, hp |-> c.hp, hla |-> c.hla, hlo |-> c.hlo])
 ExplicitHeadingWins == (Done /\ "th" \in DOMAIN c) =>
    o.gs2 = Gs2([kind |-> "uniform", h |-> (IF c.given THEN c.h ELSE c.th), tas |-> c.tas, u |-> c.u, v |-> c.v])
 =============================================================================
